@@ -565,6 +565,8 @@ theorem ostep_refines (o : OTbl) (hc : CacheOk o) (hi : Inv o.t) (op : Op) (hv :
     obtain ⟨o', e, _, e'⟩ := oSetValues_ok o hc hi x y m
     show (oSetValues o x y m).map (·.t) = setValues o.t x y m
     rw [e, e']; rfl
+  | rstrip a => rfl
+  | transpose => rfl
 
 /-- **the caches stay coherent**: after every operation every cached wrapper still describes
     the element at its key (or the cache was emptied) -/
@@ -611,6 +613,8 @@ theorem ostep_cacheOk (o : OTbl) (hc : CacheOk o) (hi : Inv o.t) (op : Op) (hv :
     obtain ⟨o2, e, c, _⟩ := oSetValues_ok o hc hi x y m
     have h' : oSetValues o x y m = some o' := h
     rw [e] at h'; cases h'; exact c
+  | rstrip a => cases h; exact CacheOk.empty _
+  | transpose => cases h; exact CacheOk.empty _
 
 /-! ### reads through the caches -/
 
